@@ -545,7 +545,95 @@ func runC11(c *an.Ctx) {
 				}
 			}
 		})
+		// stated positively, for every return: nil, or the closure that tests isASCII first, or a point where the
+		// pattern is known to be case-sensitive
+		nRet, badRet := 0, ""
+		an.Instrs(pf, func(in ssa.Instruction) {
+			r, ok := in.(*ssa.Return)
+			if !ok || len(r.Results) != 1 {
+				return
+			}
+			nRet++
+			if cst, isC := r.Results[0].(*ssa.Const); isC && cst.Value == nil {
+				return
+			}
+			if mc, isMC := r.Results[0].(*ssa.MakeClosure); isMC {
+				g := false
+				an.Instrs(mc.Fn.(*ssa.Function), func(x ssa.Instruction) {
+					if an.IsCallTo(x, isASCII) {
+						g = true
+					}
+				})
+				if g {
+					return
+				}
+				// a length-only closure (no call at all) cannot be wrong about case
+				calls := 0
+				an.Instrs(mc.Fn.(*ssa.Function), func(x ssa.Instruction) {
+					if xc := an.CallOf(x); xc != nil {
+						if b, isB := xc.Value.(*ssa.Builtin); !isB || b.Name() != "len" {
+							calls++
+						}
+					}
+				})
+				if calls == 0 {
+					return
+				}
+			}
+			for _, a := range an.FactsAt(r) {
+				if strings.HasPrefix(a.L, "operators.hasFlag(") && (a.Op == "==" && a.R == "false" || a.Op == "!=" && a.R == "true") {
+					return
+				}
+			}
+			badRet = tempName.ReplaceAllString(an.Expr(r.Results[0]), "") + " at " + c.P.Position(r.Pos())
+		})
+		c.Check(badRet == "" && nRet >= 3, "R3", "prefilterFunc: every return is nil, the isASCII-guarded wrapper, or case-sensitive", pf.Pos(), fmt.Sprintf("%d returns", nRet),
+			"prefilterFunc returns "+badRet+" without the non-ASCII bypass and without knowing the pattern to be case-sensitive: for (?i) patterns the ASCII-only matchers reject inputs that match through Unicode case folding (ſ for s, K for k)")
 		c.Check(nEarly == 0, "R3", "prefilterFunc: literal prefilters are returned unwrapped only for case-sensitive patterns", pf.Pos(), "the raw prefilter is returned only under caseInsensitive == false", "a literal prefilter can be returned without passing the case-insensitivity test")
+	}
+
+	// the artefacts a compiled @rx carries come from the reviewed constructors only: a prefilter built elsewhere
+	// (an ad-hoc closure in newRX) is outside everything R1-R3 establish
+	{
+		want := map[string]string{"prefilter": "prefilterFunc", "minLen": "minMatchLength", "exactMatch": "extractExactMatch", "exactMatchCI": "extractExactMatch"}
+		nArt := 0
+		for _, fn := range c.P.ModFuncs {
+			if relPkg(fn) != "internal/operators" {
+				continue
+			}
+			an.Instrs(fn, func(in ssa.Instruction) {
+				st, ok := in.(*ssa.Store)
+				if !ok {
+					return
+				}
+				fa, ok := st.Addr.(*ssa.FieldAddr)
+				if !ok || !strings.HasSuffix(fa.X.Type().String(), "operators.rxCompiled") {
+					return
+				}
+				fname := an.FieldVar(fa).Name()
+				ctor, tracked := want[fname]
+				if !tracked {
+					return
+				}
+				nArt++
+				okV := false
+				for d := range an.Deps(st.Val) {
+					if call, ok := d.(*ssa.Call); ok && call.Call.StaticCallee() != nil && call.Call.StaticCallee().Name() == ctor {
+						okV = true
+					}
+				}
+				v := st.Val
+				if _, isMC := v.(*ssa.MakeClosure); isMC {
+					okV = false
+				}
+				if _, isF := v.(*ssa.Function); isF {
+					okV = false
+				}
+				c.Check(okV, "R2", "rxCompiled."+fname+" is produced by "+ctor, st.Pos(), tempName.ReplaceAllString(an.Expr(st.Val), ""),
+					"the compiled @rx receives its "+fname+" from "+tempName.ReplaceAllString(an.Expr(st.Val), "")+" instead of "+ctor+": a prefilter artefact built outside the reviewed extractors can reject inputs the regex matches (for instance by treating ^ and $ as text anchors although the pattern is compiled with (?m))")
+			})
+		}
+		c.MinCount("R2", "prefilter artefacts stored into rxCompiled", nArt, 3)
 	}
 
 	// ---- R4 cache key
